@@ -319,6 +319,8 @@ class FieldCodeGenerator:
         if not self._optional:
             return
 
+        self._data.needs_reached_missing_optional_variable = True
+
         if self._context.reached_optional_field:
             self._data.serialize.add_line(
                 f"reached_missing_optional = reached_missing_optional or data._{self._name} is None"
